@@ -288,18 +288,26 @@ theorem no_silent_drop (q : Quirks) (hh : q.atRuleHoists = false) (hm : q.mediaI
     e ∈ flatItems [] st.root := by
   rw [(C20.bubble_preserves_order q hh hm hs ops p st h).1]; exact he
 
-/-- `no_silent_drop_now_partial` — the CODE AS IT IS NOW: a successful run in which no `Drop`
+/-- `no_silent_drop_afterRound1_partial` — the code after the first fix round: a successful run in which no `Drop`
 failed (`lost = 0`) has every entry of the evaluation log in its output.  The excluded case
 is exactly `close_loses_iff_parent_is_nsrule`. -/
-theorem no_silent_drop_now_partial (ops : Ops σ) (p : List (Core σ)) (st : St σ)
-    (h : emitTop Quirks.now ops p = .ok st) (hl : st.lost = 0) (e : Entry σ)
-    (he : e ∈ logBody Quirks.now ops {} p []) : e ∈ flatItems [] st.root := by
-  rw [(C20.bubble_preserves_order_now ops p st h hl).1]; exact he
+theorem no_silent_drop_afterRound1_partial (ops : Ops σ) (p : List (Core σ)) (st : St σ)
+    (h : emitTop Quirks.afterRound1 ops p = .ok st) (hl : st.lost = 0) (e : Entry σ)
+    (he : e ∈ logBody Quirks.afterRound1 ops {} p []) : e ∈ flatItems [] st.root := by
+  rw [(C20.bubble_preserves_order_afterRound1 ops p st h hl).1]; exact he
 
-/-- for the code as it is now the lost-counter never decreases during evaluation -/
-theorem lost_monotone_now (ops : Ops σ) (c : SelCtx σ) (b : List (Core σ)) (st st' : St σ)
-    (h : emitBody Quirks.now ops c b st = .ok st') : st.lost ≤ st'.lost :=
-  (emitBody_good Quirks.now rfl rfl ops c b st st' h).1
+/-- for the code after the first fix round the lost-counter never decreases during evaluation -/
+theorem lost_monotone_afterRound1 (ops : Ops σ) (c : SelCtx σ) (b : List (Core σ)) (st st' : St σ)
+    (h : emitBody Quirks.afterRound1 ops c b st = .ok st') : st.lost ≤ st'.lost :=
+  (emitBody_good Quirks.afterRound1 rfl rfl ops c b st st' h).1
+
+/-- `no_silent_drop_now` — THE CODE AS IT IS NOW (`Quirks.now`): for every program, when the
+compilation succeeds every entry of the evaluation log is in the output; no hypothesis left. -/
+theorem no_silent_drop_now (ops : Ops σ) (p : List (Core σ)) (st : St σ)
+    (h : emitTop Quirks.now ops p = .ok st) (e : Entry σ)
+    (he : e ∈ logBody Quirks.now ops {} p []) : e ∈ flatItems [] st.root ∧ st.lost = 0 := by
+  refine ⟨no_silent_drop Quirks.now rfl rfl rfl ops p st h e he, ?_⟩
+  exact no_swallow_body Quirks.now rfl ops {} p {} st h
 
 /-! ### The deviation: `closeSwallows` -/
 
@@ -317,7 +325,10 @@ theorem ns_at_spec_is_error : outcome (emitTop Quirks.spec C20.natOps nsWitness)
 theorem ns_at_asis_refutation : outcome (emitTop Quirks.asis C20.natOps nsWitness) = some ([], 1) := by rfl
 
 /-- … and still so after the repairs (finding open). -/
-theorem ns_at_now_refutation : outcome (emitTop Quirks.now C20.natOps nsWitness) = some ([], 1) := by rfl
+theorem ns_at_afterRound1_refutation : outcome (emitTop Quirks.afterRound1 C20.natOps nsWitness) = some ([], 1) := by rfl
+
+/-- after 34ff818 the witness is an error -/
+theorem ns_at_now_is_error : outcome (emitTop Quirks.now C20.natOps nsWitness) = none := by rfl
 
 /-- `no_silent_drop_partial` (code as it is): under the as-is flags a frame is lost only at a
 `close` whose parent chain ends in a nested-property block (`close_loses_iff_parent_is_nsrule`);
